@@ -437,7 +437,11 @@ class Mitochondria:
         """
         result = self.metabolize(expression, MetabolicPathway.GLYCOLYSIS)
         if result.success and result.atp:
-            return str(result.atp.value)
+            try:
+                return str(result.atp.value)
+            except ValueError as e:
+                # e.g. an integer beyond the interpreter's int -> str digit limit
+                return f"Metabolic Failure: {e}"
         return f"Metabolic Failure: {result.error}"
 
     def _detect_pathway(self, expression: str) -> MetabolicPathway:
